@@ -19,6 +19,11 @@ type segPred struct {
 	cmps    []*ssa.Call // compare(...) calls involving BPTreeRootIdx.start/end
 	visitor *ssa.Call   // the guarded per-segment call
 	qAtoms  []ssa.Value
+	// helper mode: the predicate is a bool function of the segment (or its bounds) and the query
+	helper      *ssa.Function
+	helperCall  *ssa.Call
+	visitOnTrue bool
+	paramAtom   map[*ssa.Parameter]string // helper parameter -> "seg.start" / "seg.end" / path of the query atom
 }
 
 func isSegBound(v ssa.Value) string {
@@ -78,7 +83,190 @@ func findSegPreds(c *Ctx) []*segPred {
 			out = append(out, sp)
 		}
 	}
+	// helper mode
+	for _, f := range c.P.ModCone(kvReadAPIs(c)...) {
+		calls(f, func(ci ssa.CallInstruction) {
+			call, ok := ci.(*ssa.Call)
+			if !ok {
+				return
+			}
+			h := call.Call.StaticCallee()
+			if h == nil || !c.P.inModule(h) || len(h.Blocks) == 0 || h.Signature.Results().Len() != 1 {
+				return
+			}
+			if b, ok := h.Signature.Results().At(0).Type().Underlying().(*types.Basic); !ok || b.Kind() != types.Bool {
+				return
+			}
+			usesBound := false
+			calls(h, func(hc ssa.CallInstruction) {
+				for _, a := range hc.Common().Args {
+					if isSegBound(a) != "" {
+						usesBound = true
+					}
+				}
+			})
+			hargs := call.Call.Args
+			for _, a := range hargs {
+				if isSegBound(a) != "" {
+					usesBound = true
+				}
+			}
+			if !usesBound || len(hargs) != len(h.Params) {
+				return
+			}
+			sp := &segPred{fn: f, helper: h, helperCall: call, paramAtom: map[*ssa.Parameter]string{}}
+			sp.cmps = []*ssa.Call{call}
+			for i, a := range hargs {
+				switch {
+				case isSegBound(a) != "":
+					sp.paramAtom[h.Params[i]] = "seg." + isSegBound(a)
+				case namedIs(derefT(a.Type()), "BPTreeRootIdx"):
+				default:
+					if sl, ok := a.Type().Underlying().(*types.Slice); ok {
+						if b, ok := sl.Elem().Underlying().(*types.Basic); ok && b.Kind() == types.Byte {
+							sp.paramAtom[h.Params[i]] = pathOf(a)
+							sp.qAtoms = append(sp.qAtoms, a)
+						}
+					}
+				}
+			}
+			// the visitor: a module method call returning an error, dominated by one side of the test of the helper's result
+			isRes := func(x ssa.Value) bool { return resolve1(x) == ssa.Value(call) }
+			for _, side := range []bool{true, false} {
+				edges := boolEdges(f, side, isRes)
+				if len(edges) == 0 {
+					continue
+				}
+				calls(f, func(vi ssa.CallInstruction) {
+					vc, ok := vi.(*ssa.Call)
+					if !ok || sp.visitor != nil || vc == call {
+						return
+					}
+					cal := vc.Call.StaticCallee()
+					if cal == nil || !c.P.inModule(cal) || cal.Signature.Recv() == nil || errResultIndex(cal) < 0 {
+						return
+					}
+					if edgesDominate(f, edges, vc.Block()) {
+						sp.visitor = vc
+						sp.visitOnTrue = side
+					}
+				})
+			}
+			if sp.visitor != nil && len(sp.qAtoms) > 0 {
+				out = append(out, sp)
+			}
+		})
+	}
 	return out
+}
+
+// evalBoolFn interprets a loop-free bool function under an oracle for its calls.
+func evalBoolFn(h *ssa.Function, callVal func(*ssa.Call) (interface{}, bool)) (res bool, ok bool) {
+	vals := map[ssa.Value]interface{}{}
+	var ev func(v ssa.Value) (interface{}, bool)
+	ev = func(v ssa.Value) (interface{}, bool) {
+		if r, ok := vals[v]; ok {
+			return r, true
+		}
+		switch x := v.(type) {
+		case *ssa.Const:
+			if b, ok := constBool(x); ok {
+				return b, true
+			}
+			if i, ok := constInt(x); ok {
+				return i, true
+			}
+		case *ssa.Call:
+			return callVal(x)
+		case *ssa.BinOp:
+			l, ok1 := ev(x.X)
+			r, ok2 := ev(x.Y)
+			if !ok1 || !ok2 {
+				return nil, false
+			}
+			if li, lok := l.(int64); lok {
+				if ri, rok := r.(int64); rok {
+					switch x.Op {
+					case token.EQL:
+						return li == ri, true
+					case token.NEQ:
+						return li != ri, true
+					case token.LSS:
+						return li < ri, true
+					case token.LEQ:
+						return li <= ri, true
+					case token.GTR:
+						return li > ri, true
+					case token.GEQ:
+						return li >= ri, true
+					}
+				}
+			}
+			if lb, lok := l.(bool); lok {
+				if rb, rok := r.(bool); rok {
+					switch x.Op {
+					case token.EQL:
+						return lb == rb, true
+					case token.NEQ:
+						return lb != rb, true
+					}
+				}
+			}
+		case *ssa.UnOp:
+			if x.Op == token.NOT {
+				if r, ok := ev(x.X); ok {
+					if b, ok := r.(bool); ok {
+						return !b, true
+					}
+				}
+			}
+		}
+		return nil, false
+	}
+	b := h.Blocks[0]
+	var prev *ssa.BasicBlock
+	for steps := 0; steps < 128; steps++ {
+		for _, in := range b.Instrs {
+			ph, isPhi := in.(*ssa.Phi)
+			if !isPhi {
+				break
+			}
+			for i, pb := range b.Preds {
+				if pb == prev {
+					if r, ok := ev(ph.Edges[i]); ok {
+						vals[ph] = r
+					}
+				}
+			}
+		}
+		if len(b.Instrs) == 0 {
+			return false, false
+		}
+		switch t := b.Instrs[len(b.Instrs)-1].(type) {
+		case *ssa.If:
+			r, ok := ev(t.Cond)
+			bv, isB := r.(bool)
+			if !ok || !isB {
+				return false, false
+			}
+			prev = b
+			if bv {
+				b = b.Succs[0]
+			} else {
+				b = b.Succs[1]
+			}
+		case *ssa.Jump:
+			prev = b
+			b = b.Succs[0]
+		case *ssa.Return:
+			r, ok := ev(t.Results[0])
+			bv, isB := r.(bool)
+			return bv, ok && isB
+		default:
+			return false, false
+		}
+	}
+	return false, false
 }
 
 // walkDecision evaluates the loop-free region from block start under the
@@ -200,17 +388,18 @@ func ruleSegPred(c *Ctx) {
 		rows, bad, und := 0, 0, 0
 		var firstBad string
 		atomVal := map[string]string{}
+		atomGet := func(a ssa.Value) (string, bool) {
+			if k := isSegBound(a); k != "" {
+				return atomVal["seg."+k], true
+			}
+			v, ok := atomVal[pathOf(a)]
+			return v, ok
+		}
 		cmpVal := func(call *ssa.Call) (int64, bool) {
-			if !calleeIs(&call.Call, modPath, "", "compare") {
+			if !calleeIs(&call.Call, modPath, "", "compare") && !calleeIs(&call.Call, "bytes", "", "Compare") {
 				return 0, false
 			}
-			get := func(a ssa.Value) (string, bool) {
-				if k := isSegBound(a); k != "" {
-					return atomVal["seg."+k], true
-				}
-				v, ok := atomVal[pathOf(a)]
-				return v, ok
-			}
+			get := atomGet
 			x, ok1 := get(call.Call.Args[0])
 			y, ok2 := get(call.Call.Args[1])
 			if !ok1 || !ok2 {
@@ -225,7 +414,28 @@ func ruleSegPred(c *Ctx) {
 				atomVal[pathOf(a)] = q[i]
 			}
 			rows++
-			r := walkDecision(start, sp.visitor.Block(), cmpVal)
+			var r string
+			if sp.helper != nil {
+				for prm, at := range sp.paramAtom {
+					atomVal[pathOf(prm)] = atomVal[at]
+				}
+				bv, ok := evalBoolFn(sp.helper, func(call *ssa.Call) (interface{}, bool) {
+					if v, ok := cmpVal(call); ok {
+						return v, true
+					}
+					return bytesPredVal(call, atomGet)
+				})
+				switch {
+				case !ok:
+					r = "undecided"
+				case bv == sp.visitOnTrue:
+					r = "visit"
+				default:
+					r = "skip"
+				}
+			} else {
+				r = walkDecision(start, sp.visitor.Block(), cmpVal)
+			}
 			if r == "undecided" {
 				und++
 				return
@@ -743,4 +953,27 @@ func ruleCount(c *Ctx) {
 		}
 	}
 	c.minInstances("offset/limit counters", n, 9)
+}
+
+
+// bytesPredVal evaluates bytes.HasPrefix / bytes.HasSuffix / bytes.Equal over atoms.
+func bytesPredVal(call *ssa.Call, get func(ssa.Value) (string, bool)) (interface{}, bool) {
+	cal := call.Call.StaticCallee()
+	if cal == nil || cal.Pkg == nil || cal.Pkg.Pkg.Path() != "bytes" || len(call.Call.Args) != 2 {
+		return nil, false
+	}
+	x, ok1 := get(call.Call.Args[0])
+	y, ok2 := get(call.Call.Args[1])
+	if !ok1 || !ok2 {
+		return nil, false
+	}
+	switch cal.Name() {
+	case "HasPrefix":
+		return strings.HasPrefix(x, y), true
+	case "HasSuffix":
+		return strings.HasSuffix(x, y), true
+	case "Equal":
+		return x == y, true
+	}
+	return nil, false
 }
